@@ -208,8 +208,9 @@ pub fn run(a: &Args) -> ShardOut {
     let mut out = ShardOut::default();
     let mut rng = Rng::derive(a.seed, "C20", a.shard);
     let nsh = a.nshards.max(1);
-    // exhaustive part: every power-of-two leaf count 2^0..2^12, every node index in [0, 2n]
-    for e in 0..=12u32 {
+    // exhaustive part: every power-of-two leaf count 2^0..2^12 (thorough: 2^20), every node index in [0, 2n]
+    let emax = if a.thorough { 20u32 } else { 12 };
+    for e in 0..=emax {
         if (e as u64) % nsh != a.shard % nsh {
             continue;
         }
@@ -234,7 +235,7 @@ pub fn run(a: &Args) -> ShardOut {
             Err(p) => out.violate("C20", "C20|panic|bfs", format!("n={n}: {p}")),
         }
         // LCA level: all leaf pairs up to 2^9 (thorough: 2^11), sampled above
-        let all_pairs = e <= if a.thorough { 11 } else { 9 };
+        let all_pairs = e <= if a.thorough { 12 } else { 9 };
         let mut pair = |out: &mut ShardOut, x: u64, y: u64| {
             let exp = lca_level_reference(n, x, y);
             match guarded(|| tm::leaf_lca_level(x as u32, y as u32)) {
@@ -267,7 +268,7 @@ pub fn run(a: &Args) -> ShardOut {
         }
     }
     // sampled part: sizes up to the 2^24 leaf limit, indices around every level boundary
-    for e in 13..=24u32 {
+    for e in (emax + 1)..=24u32 {
         if (e as u64) % nsh != a.shard % nsh {
             continue;
         }
